@@ -23,7 +23,11 @@
 (***************************************************************************)
 EXTENDS Naturals, FiniteSets, Sequences
 
-CONSTANTS MaxN, Guard
+CONSTANTS MaxN, Guard,
+          BoxOrder   \* how a boxed container obtains its heap block (Box::decode_wrapped):
+                     \*   "faithful"           announce, allocate, wrap the raw block in an owning Box<MaybeUninit>, decode
+                     \*   "alloc_before_hook"  allocate first, announce while the block is still a raw pointer
+                     \*   "raw_during_decode"  decode through the raw pointer, wrap afterwards
 
 \* "hooklimit": the container's own allocation announcement is refused (f = 0: nothing constructed yet)
 Kinds == {"none", "exhausted", "malformed", "limit", "panic", "hooklimit"}
@@ -32,8 +36,9 @@ VARIABLES n, f, kind,      \* the vector: size, fault position (n = no fault), f
           i, count,        \* next element, guard's count of initialised slots
           live,            \* ids constructed and not yet dropped
           drops,           \* how often each id has been dropped
-          status           \* "run" | "unwind" | "err" | "panic" | "ok" | "released"
-vars == <<n, f, kind, i, count, live, drops, status>>
+          status,          \* "boxing" | "run" | "unwind" | "err" | "panic" | "ok" | "released"
+          block            \* the container's own heap block: "none" | "raw" | "owned" | "freed" | "leaked"
+vars == <<n, f, kind, i, count, live, drops, status, block>>
 
 Init ==
   /\ n \in 0..MaxN
@@ -41,7 +46,22 @@ Init ==
      \/ f \in 0..(n - 1) /\ kind \in Kinds \ {"none", "hooklimit"}
      \/ f = 0 /\ n >= 1 /\ kind = "hooklimit"
   /\ i = 0 /\ count = 0 /\ live = {} /\ drops = [j \in 0..MaxN |-> 0]
-  /\ status = "run"
+  /\ status = "boxing" /\ block = "none"
+
+\* obtaining the block: the announcement may be refused (kind = "hooklimit")
+Boxing ==
+  /\ status = "boxing"
+  /\ LET refused == kind = "hooklimit" IN
+     CASE BoxOrder = "alloc_before_hook" ->
+            IF refused THEN status' = "err" /\ block' = "leaked"            \* `?` returns while the block is a raw pointer
+            ELSE status' = "run" /\ block' = "owned"
+       [] BoxOrder = "raw_during_decode" ->
+            IF refused THEN status' = "err" /\ block' = "none"
+            ELSE status' = "run" /\ block' = "raw"
+       [] OTHER ->
+            IF refused THEN status' = "err" /\ block' = "none"              \* refused before anything is allocated
+            ELSE status' = "run" /\ block' = "owned"
+  /\ UNCHANGED <<n, f, kind, i, count, live, drops>>
 
 \* decode element i successfully
 Construct ==
@@ -49,13 +69,15 @@ Construct ==
   /\ live' = live \cup {i}
   /\ i' = i + 1
   /\ count' = count + 1                      \* after ("correct") or before: same value once the element exists
-  /\ UNCHANGED <<n, f, kind, drops, status>>
+  /\ UNCHANGED <<n, f, kind, drops, status, block>>
 
 \* element f fails: nothing is constructed for it
 Fault ==
-  /\ status = "run" /\ i = f /\ f < n
+  /\ status = "run" /\ i = f /\ f < n /\ kind # "hooklimit"
   /\ status' = "unwind"
   /\ count' = IF Guard = "count_before" THEN count + 1 ELSE count
+  \* an owning box frees its block while unwinding; a raw pointer is freed by hand on the error path only
+  /\ block' = IF block = "owned" THEN "freed" ELSE IF block = "raw" /\ kind # "panic" THEN "freed" ELSE IF block = "raw" THEN "leaked" ELSE block
   /\ UNCHANGED <<n, f, kind, i, live, drops>>
 
 \* the guard drops slot j < count
@@ -65,13 +87,13 @@ UnwindDrop ==
        /\ drops[j] = 0
        /\ drops' = [drops EXCEPT ![j] = @ + 1]
        /\ live' = live \ {j}
-  /\ UNCHANGED <<n, f, kind, i, count, status>>
+  /\ UNCHANGED <<n, f, kind, i, count, status, block>>
 
 UnwindDone ==
   /\ status = "unwind"
   /\ Guard = "no_guard" \/ \A j \in 0..(count - 1) : drops[j] > 0
   /\ status' = IF kind = "panic" THEN "panic" ELSE "err"
-  /\ UNCHANGED <<n, f, kind, i, count, live, drops>>
+  /\ UNCHANGED <<n, f, kind, i, count, live, drops, block>>
 
 \* all elements decoded: disarm the guard and hand the value over
 Finish ==
@@ -81,6 +103,7 @@ Finish ==
      THEN /\ drops' = [j \in 0..MaxN |-> IF j < count THEN drops[j] + 1 ELSE drops[j]]
           /\ live' = {}
      ELSE UNCHANGED <<drops, live>>
+  /\ block' = "owned"
   /\ UNCHANGED <<n, f, kind, i, count>>
 
 \* the owner drops the value
@@ -89,9 +112,10 @@ Release ==
   /\ drops' = [j \in 0..MaxN |-> IF j < n THEN drops[j] + 1 ELSE drops[j]]
   /\ live' = {}
   /\ status' = "released"
+  /\ block' = "freed"
   /\ UNCHANGED <<n, f, kind, i, count>>
 
-Next == Construct \/ Fault \/ UnwindDrop \/ UnwindDone \/ Finish \/ Release
+Next == Boxing \/ Construct \/ Fault \/ UnwindDrop \/ UnwindDone \/ Finish \/ Release
 Spec == Init /\ [][Next]_vars /\ WF_vars(Next)
 
 ExactlyOnce == \A j \in 0..MaxN : drops[j] <= 1
@@ -100,6 +124,10 @@ FailedReleasesAll == status \in {"err", "panic"} => live = {}
 HandedOverWhole == status = "ok" => live = 0..(n - 1)
 ReleasedAll == status = "released" => live = {} /\ \A j \in 0..(n - 1) : drops[j] = 1
 Terminates == <>(status \in {"err", "panic", "released"})
+\* the container's own block is never leaked: freed on every failure path, owned by the value on success
+NoBlockLeak == /\ block # "leaked"
+               /\ status \in {"err", "panic"} => block \in {"none", "freed"}
+               /\ status = "released" => block = "freed"
 
 \* what the ledger of the real code must show for a vector (used by the trace specification)
 ExpectedNew(total, fpos) == IF fpos < 0 THEN total ELSE fpos
